@@ -297,6 +297,9 @@ VARIANTS += [
     V("eval-forward-cursor", ["C01"], H, "    for j, node in enumerate(nodes):\n        span = knotvector.span(node)\n        ind = spans.index(span)\n        shifnode = node - knots[ind]", "    ind = 0\n    for j, node in enumerate(nodes):\n        span = knotvector.span(node)\n        while spans[ind] < span:\n            ind += 1\n        shifnode = node - knots[ind]", "NODE-LOCAL", "eval_spline_nodes", "span index kept as a forward-only cursor over the nodes"),
     V("twin-eval-span-cache", ["C01"], H, "    for j, node in enumerate(nodes):\n        span = knotvector.span(node)\n        ind = spans.index(span)\n        shifnode = node - knots[ind]", "    lastspan, ind = None, 0\n    for j, node in enumerate(nodes):\n        span = knotvector.span(node)\n        if span != lastspan:\n            ind = spans.index(span)\n            lastspan = span\n        shifnode = node - knots[ind]", None, None, "index recomputed only when the span changes (carried, but reset from the node)", twin=True),
     V("twin-eval-manual-counter", ["C01"], H, "    for j, node in enumerate(nodes):\n        span = knotvector.span(node)\n        ind = spans.index(span)\n", "    j = -1\n    for node in nodes:\n        j += 1\n        span = knotvector.span(node)\n        ind = spans.index(span)\n", None, None, "column counted by hand", twin=True),
+    V("valid-probe-all-map", ["C03"], H, "            for knot in vector:\n                float(knot)\n        except TypeError:\n            return False\n        lenght = len(vector)", "            all(map(float, vector))\n        except TypeError:\n            return False\n        lenght = len(vector)", "PROBE-ALL", "__is_valid", "numeric probe through all(): stops at the first knot 0"),
+    V("twin-valid-probe-listcomp", ["C03"], H, "            for knot in vector:\n                float(knot)\n        except TypeError:\n            return False\n        lenght = len(vector)", "            [float(knot) for knot in vector]\n        except TypeError:\n            return False\n        lenght = len(vector)", None, None, "numeric probe in a list comprehension", twin=True),
+    V("twin-valid-probe-tuple-map", ["C03"], H, "            for knot in vector:\n                float(knot)\n        except TypeError:\n            return False\n        lenght = len(vector)", "            tuple(map(float, vector))\n        except TypeError:\n            return False\n        lenght = len(vector)", None, None, "numeric probe through tuple(map())", twin=True),
     V("insert-divide-by-umax", ["C04"], H, "        one = knotvector[-1] - knotvector[0]\n", "        one = knotvector[-1]\n", "D", "one_knot_insert_once", "unit made from the last knot alone (0 for an interval ending at 0)", near=908),
     V("increase-in-place-kv", ["C06"], C, "        nodes = self.knotvector.knots\n        newnodes = times * nodes\n        newvector = self.knotvector + newnodes\n        oldvector = tuple(self.knotvector)\n        matrix = heavy.Operations.degree_increase(oldvector, times)\n", "        oldvector = tuple(self.knotvector)\n        matrix = heavy.Operations.degree_increase(oldvector, times)\n        newvector = KnotVector(self.knotvector)\n        newvector.degree += times\n", "SHARED-KV", "degree_increase", "the stored KnotVector object is elevated in place"),
 ]
